@@ -33,8 +33,8 @@ RULE = ("case = one configuration (differential) or one (configuration, crash po
 ASSUMPTIONS = ["Linux /proc", "the harness puts /venv/bin on PATH so that the plug-in runner script is found", "population methods get an explicit seed option"]
 CASE_TIMEOUT = 240
 SHARD_TIMEOUT = {"quick": 900, "thorough": 7200}
-REQUIRED = {"quick": {"external_runs": 25, "trace_pairs_compared": 8, "kill_runs": 8, "evaluator_exception_runs": 3, "process_table_checked": 25, "messages_counted": 100, "messages_beyond_one_pipe_buffer": 7, "configurations_compared_at_the_pipe": 14, "explicit_start_vector_pairs": 3, "__nontrivial__": 20},
-            "thorough": {"external_runs": 300, "trace_pairs_compared": 80, "kill_runs": 120, "evaluator_exception_runs": 50, "process_table_checked": 300, "messages_counted": 2000, "messages_beyond_one_pipe_buffer": 70, "configurations_compared_at_the_pipe": 140, "__nontrivial__": 250}}
+REQUIRED = {"quick": {"external_runs": 25, "trace_pairs_compared": 8, "kill_runs": 8, "evaluator_exception_runs": 3, "process_table_checked": 25, "messages_counted": 100, "messages_beyond_one_pipe_buffer": 7, "configurations_compared_at_the_pipe": 14, "explicit_start_vector_pairs": 3, "external_runs_with_an_evaluation_beyond_the_polling_interval": 3, "__nontrivial__": 20},
+            "thorough": {"external_runs": 300, "trace_pairs_compared": 80, "kill_runs": 120, "evaluator_exception_runs": 50, "process_table_checked": 300, "messages_counted": 2000, "messages_beyond_one_pipe_buffer": 70, "configurations_compared_at_the_pipe": 140, "external_runs_with_an_evaluation_beyond_the_polling_interval": 25, "__nontrivial__": 250}}
 N = {"quick": {"diff": 27, "kill": 3, "exc": 2}, "thorough": {"diff": 270, "kill": 30, "exc": 20}}
 MAX_ROUNDS_AFTER_DEATH = 6
 
@@ -249,7 +249,7 @@ def _first_difference(a, b, path):
     return None if a == b else (path, a, b)
 
 
-def run_trace(spec, external, *, raise_at=None, pipes=None, start=None):
+def run_trace(spec, external, *, raise_at=None, pipes=None, start=None, slow=None):
     from ropt.enums import EventType  # noqa: PLC0415
     from ropt.plan import OptimizerContext, Plan  # noqa: PLC0415
 
@@ -259,7 +259,18 @@ def run_trace(spec, external, *, raise_at=None, pipes=None, start=None):
         s["optimizer"]["method"] = "external/" + spec["optimizer"]["method"]
     ev = ens.RecordingEvaluator(s, raise_at=raise_at)
     h = hashlib.sha256()
-    ctx = OptimizerContext(evaluator=ev, plugin_manager=ens.plugin_manager())
+    evaluator = ev
+    if slow:
+        # an evaluation that takes longer than the polling interval of the pipes (1 s): the optimizer process just waits
+        def evaluator(variables, context):
+            k = len(ev.calls)
+            out = ev(variables, context)
+            if k in slow:
+                time.sleep(slow[k])
+                slow["slept"] = slow.get("slept", 0) + 1
+            return out
+
+    ctx = OptimizerContext(evaluator=evaluator, plugin_manager=ens.plugin_manager())
 
     def on_results(event):
         for res in event.data["results"]:
@@ -350,12 +361,15 @@ def run_case(case, obs):
                 start = np.clip(start, np.asarray(spec["lb"]) + 1e-6, np.asarray(spec["ub"]) - 1e-6)
             obs.count("explicit_start_vector_pairs")
         a = run_trace(spec, False, raise_at=mk(), start=start)
+        slow = {int(rng.integers(0, 3)): float(rng.choice([1.3, 2.4]))} if case["i"] % 5 == 2 else None
         pipes = Pipes()
         pipes.install()
         try:
-            b = run_trace(spec, True, raise_at=mk(), start=start)
+            b = run_trace(spec, True, raise_at=mk(), start=start, slow=slow)
         finally:
             pipes.remove()
+        if slow and slow.get("slept"):
+            obs.count("external_runs_with_an_evaluation_beyond_the_polling_interval")
         obs.count("external_runs")
         obs.count("messages_counted", pipes.writes)
         obs.count("messages_beyond_one_pipe_buffer", pipes.big_writes)
